@@ -121,9 +121,30 @@ def select1(ctx: Ctx, chk) -> None:
         elif len(body) == 2 and isinstance(body[0], ast.If) and not body[0].orelse and len(body[0].body) == 1 and isinstance(body[0].body[0], ast.Continue) and isinstance(body[1], ast.Return):
             # `if <skip>: continue` / `return table[k]`  ==  `if not <skip>: return table[k]`
             sel_pred, sel_ret = ast.copy_location(ast.UnaryOp(op=ast.Not(), operand=body[0].test), body[0].test), body[1]
+        after = [x for x in f.node.body[f.node.body.index(lp) + 1 :] if isinstance(x, ast.Return)]
+        if sel_pred is None and len(after) == 1 and after[0].value is not None:
+            # `x = default` ... `for k in <order>: [if <skip>: continue] x = table[k]; break` ... `return x`
+            def _unc(e):
+                while isinstance(e, ast.Call) and norm(e.func) == "cast" and len(e.args) == 2:
+                    e = e.args[1]
+                return e
+
+            rv = _unc(after[0].value)
+            pre_asg = [x for x in f.node.body[: f.node.body.index(lp)] if isinstance(x, ast.Assign) and len(x.targets) == 1 and isinstance(x.targets[0], ast.Name) and isinstance(rv, ast.Name) and x.targets[0].id == rv.id]
+            b2 = list(body)
+            pred = None
+            if len(b2) == 3 and isinstance(b2[0], ast.If) and not b2[0].orelse and len(b2[0].body) == 1 and isinstance(b2[0].body[0], ast.Continue):
+                pred = ast.copy_location(ast.UnaryOp(op=ast.Not(), operand=b2[0].test), b2[0].test)
+                b2 = b2[1:]
+            elif len(b2) == 1 and isinstance(b2[0], ast.If) and not b2[0].orelse and len(b2[0].body) == 2:
+                pred = b2[0].test
+                b2 = b2[0].body
+            if pred is not None and len(b2) == 2 and isinstance(b2[0], ast.Assign) and len(b2[0].targets) == 1 and isinstance(b2[0].targets[0], ast.Name) and isinstance(rv, ast.Name) and b2[0].targets[0].id == rv.id and isinstance(b2[1], ast.Break) and len(pre_asg) == 1:
+                sel_pred = pred
+                sel_ret = ast.copy_location(ast.Return(value=b2[0].value), b2[0])
+                after = [ast.copy_location(ast.Return(value=pre_asg[0].value), pre_asg[0])]
         if sel_pred is None or sel_ret.value is None:
             raise AnalysisError("SELECT-1: selection loop shape not recognised")
-        after = [x for x in f.node.body[f.node.body.index(lp) + 1 :] if isinstance(x, ast.Return)]
         if len(after) != 1:
             raise AnalysisError("SELECT-1: fallback return after the selection loop not found")
 
@@ -528,7 +549,7 @@ def learn1(ctx: Ctx, chk) -> None:
         bad = None
         for f in chain:
             calls = [x for x in ctx.own_nodes(f) if isinstance(x, ast.Call) and norm(x.func).endswith("handle_i_version")]
-            wrapped_params = set(f.parent.params) if f.parent is not None else set()
+            wrapped_params = ctx.I.wrapped_param_names(f)
             deleg = []
             for c in ctx.own_nodes(f):
                 if not isinstance(c, ast.Call):
